@@ -10,7 +10,8 @@
 //   root <id>
 //   region x0 y0 z0 x1 y1 z1
 //   probe x y z                   (any number) points for the winding-number oracle
-//   search ax ay az bx by bz      run the real SimplexMesher::searchEdge on this segment; prints
+//   search ax ay az bx by bz      run the real SimplexMesher::searchEdge ("search") and HybridMesher::searchEdge
+//        ("hsearch") on this segment; each prints
 //        search <case> t_real offset z changes f(a) f(b) |b-a| slope f(bracket lo) f(bracket hi)
 //   render <alg:dc|simplex|hybrid> <min_feature> <max_err> <workers> <vol:0|1> <dump:0|1>
 //   end
@@ -34,6 +35,7 @@
 #include "libfive/render/brep/settings.hpp"
 #include "libfive/render/brep/per_thread_brep.hpp"
 #include "libfive/render/brep/simplex/simplex_mesher.hpp"
+#include "libfive/render/brep/hybrid/hybrid_mesher.hpp"
 #include "libfive/render/brep/vol/vol_worker_pool.hpp"
 #include "libfive/verif.hpp"
 
@@ -137,6 +139,10 @@ struct SearchPeek : public SimplexMesher {
     using SimplexMesher::SimplexMesher;
     using SimplexMesher::searchEdge;
 };
+struct HybridSearchPeek : public HybridMesher {
+    using HybridMesher::HybridMesher;
+    using HybridMesher::searchEdge;
+};
 
 int main(int argc, char** argv) {
     std::ifstream file;
@@ -174,11 +180,19 @@ int main(int argc, char** argv) {
             Eigen::Vector3d a(atof(w[1].c_str()), atof(w[2].c_str()), atof(w[3].c_str()));
             Eigen::Vector3d b(atof(w[4].c_str()), atof(w[5].c_str()), atof(w[6].c_str()));
             Tree t = prog.nodes.at(root);
+            // both copies of the search: SimplexMesher::searchEdge ("search") and
+            // HybridMesher::searchEdge ("hsearch")
+            for (int which = 0; which < 2; ++which) {
             std::atomic<uint32_t> counter(1);
             PerThreadBRep<3> brep(counter);
             Evaluator ev(t.optimized());
-            SearchPeek sp(brep, &ev);
-            sp.searchEdge(a, b, ev.getDeck()->tape);
+            if (which == 0) {
+                SearchPeek sp(brep, &ev);
+                sp.searchEdge(a, b, ev.getDeck()->tape);
+            } else {
+                HybridSearchPeek sp(brep, &ev);
+                sp.searchEdge(a, b, ev.getDeck()->tape);
+            }
             Eigen::Vector3d v = brep.verts.at(0).cast<double>();
             // parameter of the returned vertex along the segment (least squares)
             double tpar = (v - a).dot(b - a) / (b - a).squaredNorm();
@@ -199,9 +213,10 @@ int main(int argc, char** argv) {
             const double zmid = (zl + zh) / 2;
             const double wbr = 1.0 / 50625.0;       // (POINTS_PER_SEARCH - 1)^SEARCH_COUNT, see C04.search_constants
             const double slope = (f(zmid + 1e-4) - f(zmid - 1e-4)) / 2e-4;
-            snprintf(buf, sizeof buf, "search %s %.17g %.3g %.17g %d %.9g %.9g %.9g %.9g %.9g %.9g", cs.c_str(), tpar, off,
+            snprintf(buf, sizeof buf, "%s %s %.17g %.3g %.17g %d %.9g %.9g %.9g %.9g %.9g %.9g", which == 0 ? "search" : "hsearch", cs.c_str(), tpar, off,
                      zmid, changes, f(0), f(1), (b - a).norm(), slope, f(tpar - wbr / 2), f(tpar + wbr / 2));
             std::cout << buf << "\n";
+            }
         } else if (w[0] == "render") {
             vh::forceRoundNearest();
             BRepSettings s;
